@@ -57,17 +57,31 @@ ASSUMPTIONS = [
     "sources only; seeds of real outputs are real; no integer / float32 / read-only states",
 ]
 FLOORS = {
-    "quick": {"cases_held": 600, "distinct_nontrivial": 300, "reports_judged": 15000, "imag_reports_judged": 4000,
-              "states_compared": 2000, "sensitivities_inspected": 4000, "seeds_observed": 1500,
-              "wrong_module_mismatch_pairs": 1500, "right_module_matching_pairs": 5000, "summary_lines_judged": 500,
-              "sparse_output_cases": 40, "network_cases": 200, "sliced_fromsig_cases": 40, "sliced_tosig_cases": 40},
-    "thorough": {"cases_held": 6000, "distinct_nontrivial": 2000, "reports_judged": 150000, "imag_reports_judged": 40000,
-                 "states_compared": 20000, "sensitivities_inspected": 40000, "seeds_observed": 15000,
-                 "wrong_module_mismatch_pairs": 15000, "right_module_matching_pairs": 50000,
-                 "summary_lines_judged": 5000, "sparse_output_cases": 400, "network_cases": 2000,
-                 "sliced_fromsig_cases": 400, "sliced_tosig_cases": 400},
+    "quick": {"cases_held": 1800, "distinct_nontrivial": 1800, "reports_judged": 25000, "imag_reports_judged": 8000,
+              "states_compared": 3500, "sensitivities_inspected": 9000, "seeds_observed": 4000, "use_df_seeds_confirmed": 700,
+              "wrong_module_mismatch_pairs": 3500, "right_module_matching_pairs": 12000, "summary_lines_judged": 3000,
+              "sparse_output_cases": 500, "network_cases": 1000, "nested_network_cases": 150, "sliced_fromsig_cases": 500,
+              "sliced_tosig_cases": 350, "cut_fromsig_cases": 100, "stale_sensitivity_cases": 400, "overhang_cases": 16},
+    "thorough": {"cases_held": 22000, "distinct_nontrivial": 20000, "reports_judged": 300000, "imag_reports_judged": 100000,
+                 "states_compared": 45000, "sensitivities_inspected": 110000, "seeds_observed": 50000,
+                 "use_df_seeds_confirmed": 9000, "wrong_module_mismatch_pairs": 45000, "right_module_matching_pairs": 150000,
+                 "summary_lines_judged": 36000, "sparse_output_cases": 6000, "network_cases": 15000,
+                 "nested_network_cases": 2000, "sliced_fromsig_cases": 7000, "sliced_tosig_cases": 4500,
+                 "cut_fromsig_cases": 1400, "stale_sensitivity_cases": 5000, "overhang_cases": 150},
 }
 TIMEOUT_CASE = 120
+EXPLANATION = ("clauses -> oracle: (1) every perturbable entry reported once per output and direction: order-free perfect "
+               "matching of the test_fn stream with the expected records (entries x {re,im} x outputs; zero entries "
+               "excluded iff keep_zero_structure); (2) analytical value = back-propagation of the observed seed through the "
+               "modules' own (possibly wrong) adjoints, computed by Jacobian contraction; (3) numerical value = exact "
+               "directional derivative by forward tangents, within twice the one-sided truncation error plus a rounding "
+               "bound; (4) wrong module -> reported pair differs by at least half the wrongness, right module -> pair agrees "
+               "within the allowance, and the printed 'beyond tolerance' count lies between the clearly-wrong and the "
+               "not-clearly-right entries; (5) digests of all input states (incl. view buffers and perturbed intermediate "
+               "signals) before/after; (6) every Signal.sensitivity None or zero after the call; use_df seeds confirmed at "
+               "the assignment to the output signal")
+UNREACHABLE = ["sparse-matrix *input* signals: finite_difference raises (known finding sparse-input-unsupported), the "
+               "oracle for that path is present but never exercised"]
 
 SCALAR_KINDS = ["pyf", "pyc", "npf", "npc", "0df", "0dc"]
 ARRAY_KINDS = ["vec", "vecz", "mat", "matz", "matF", "view"]
@@ -388,6 +402,7 @@ def build_program(rng, case, ctx):
 
     P.knob_kind = "none"
     P.nmods = 1
+    P.nested = False
     if fam in ("single", "single2"):
         if fam == "single":
             kinds = [case["kind"]]
@@ -466,7 +481,19 @@ def build_program(rng, case, ctx):
                 P.producer[n] = k
                 if sig_fmt[n][0] != "sparse":
                     consumable.append(n)
-        P.blk = pym.Network(mods_py)
+        # optionally bind a contiguous run of modules into a nested Network (one block of the outer Network)
+        P.block_of = list(range(nm))
+        blocks = list(mods_py)
+        if nm >= 3 and rng.random() < 0.25:
+            a = int(rng.integers(0, nm - 1))
+            b = int(rng.integers(a + 2, nm + 1))
+            blocks = mods_py[:a] + [pym.Network(mods_py[a:b])] + mods_py[b:]
+            P.block_of = [k if k < a else (a if k < b else k - (b - a) + 1) for k in range(nm)]
+        P.nested = len(blocks) != nm
+        P.nblocks = len(blocks)
+        P.producer = {n: P.block_of[k] for n, k in P.producer.items()}
+        P.consumers = {n: [P.block_of[k] for k in ks] for n, ks in P.consumers.items()}
+        P.blk = pym.Network(blocks)
         P.is_network = True
         P.anyslice_input = anyslice
     P.mods_py, P.mods_ref, P.sig_fmt = mods_py, mods_ref, sig_fmt
@@ -575,7 +602,9 @@ def select_signals(rng, P, case):
         return (obj.tag, None, obj)
 
     def maybe_bare(lst):
-        return lst[0] if (len(lst) == 1 and rng.random() < 0.5) else lst
+        if len(lst) == 1 and rng.random() < 0.5:
+            return lst[0]
+        return tuple(lst) if rng.random() < 0.15 else lst
 
     blk = P.blk
     # ------------------------------------------------------------ tosig
@@ -628,10 +657,11 @@ def select_signals(rng, P, case):
     fromarg = None
     if P.is_network:
         u = rng.random()
-        srcs = [n for n in P.srcs]
+        # an intermediate signal can be an input of interest if no consumer sits in the block that produces it
+        cand = [n for n in P.produced if n in P.consumers and all(c > P.producer[n] for c in P.consumers[n])]
         if u < 0.3:
             fromarg = None
-        elif u < 0.8 or not [n for n in P.produced if n in P.consumers]:
+        elif u < 0.8 or not cand:
             # subset of the network's own input signals (slices stay the slices the modules consume)
             net_in = sorted(blk.sig_in, key=lambda q: (q.base.tag, repr(q.slice)) if isinstance(q, _SS()) else (q.tag, ''))
             k = int(rng.integers(1, len(net_in) + 1))
@@ -649,7 +679,6 @@ def select_signals(rng, P, case):
                     objs.append(s)
             fromarg = maybe_bare(objs)
         else:
-            cand = [n for n in P.produced if n in P.consumers]
             n = str(rng.choice(cand))
             tags["from"] = "cut-intermediate"
             fromarg = maybe_bare([P.sig[n]])
@@ -672,8 +701,8 @@ def select_signals(rng, P, case):
                 else:
                     objs.append(s)
             fromarg = maybe_bare(objs)
-    inps = list(blk.sig_in) if fromarg is None else (fromarg if isinstance(fromarg, list) else [fromarg])
-    outps = list(blk.sig_out) if toarg is None else (toarg if isinstance(toarg, list) else [toarg])
+    inps = list(blk.sig_in) if fromarg is None else (list(fromarg) if isinstance(fromarg, (list, tuple)) else [fromarg])
+    outps = list(blk.sig_out) if toarg is None else (list(toarg) if isinstance(toarg, (list, tuple)) else [toarg])
     for s in inps:
         if isinstance(s, _SS()) and tags["from"] in ("default", "inputs-all", "inputs-subset"):
             tags["from"] += "+module-slice"
@@ -688,8 +717,9 @@ def exec_range(P, fromlist, tolist):
         return 0, 0
     fn = {n for n, _, _ in fromlist}
     tn = {n for n, _, _ in tolist}
-    i_first = min(i for i, m in enumerate(P.mods_ref) if any(n in fn for n, _ in m["ins"]))
-    i_last = max(i for i, m in enumerate(P.mods_ref) if any(n in tn for n in m["outs"]))
+    # (blocks of the outer Network: a nested Network counts as one block)
+    i_first = min(P.block_of[i] for i, m in enumerate(P.mods_ref) if any(n in fn for n, _ in m["ins"]))
+    i_last = max(P.block_of[i] for i, m in enumerate(P.mods_ref) if any(n in tn for n in m["outs"]))
     return i_first, i_last
 
 
@@ -750,7 +780,7 @@ def run_poly(case, ctx):
 
     # ---- stale sensitivities from an earlier use of the program (inside the executed range only)
     stale = False
-    whole = (not P.is_network) or (i_first == 0 and i_last == len(P.mods_ref) - 1)
+    whole = (not P.is_network) or (i_first == 0 and i_last == P.nblocks - 1)
     sliced_bases = {n for m in P.mods_ref for (n, idx) in m["ins"] if idx.size != int(np.prod(P.shape[n], dtype=int))}
     sliced_bases |= {n for n, sl, _ in fromlist + tolist if sl is not None}
     if whole and rng.random() < 0.3:
@@ -849,7 +879,7 @@ def run_poly(case, ctx):
             if bad and n_im_copy and all(float(reports[i][2]) == 0.0 for i in bad) and \
                     M.judge_stream([(r[0], r[1], r[2]) for r in reports], recs2)[0] is None:
                 mech = "numerical/imaginary-perturbation-not-applied-to-copying-input-signal"
-                i0 = bad[0]
+                i0 = ([i for i in bad if float(reports[i][1]) != 0.0] or bad)[0]
                 wit = {"report_index": i0, "x0": complex(np.asarray(reports[i0][0]).reshape(-1)[0]),
                        "reported_an": float(reports[i0][1]), "reported_fd": float(reports[i0][2]),
                        "reports_with_numerical_value_exactly_zero_left_unmatched": len(bad),
@@ -900,6 +930,8 @@ def run_poly(case, ctx):
         ctx.count("cut_fromsig_cases")
     if stale:
         ctx.count("stale_sensitivity_cases")
+    if P.nested:
+        ctx.count("nested_network_cases")
     margin_fd = max([abs(float(reports[i][2]) - recs[j]["fd"]) / max(recs[j]["allow"], 1e-300) for i, j in enumerate(assign)] + [0.0])
     margin_rnd = max([abs(float(reports[i][2]) - recs[j]["fd"]) / recs[j]["rnd"] for i, j in enumerate(assign)
                       if recs[j]["allow"] < 1.001 * recs[j]["rnd"]] + [0.0])
@@ -980,7 +1012,7 @@ def run_poly(case, ctx):
     ctx.count("sensitivities_inspected", nins)
 
     key = "|".join([fam, ",".join(sorted(P.kinds[n] for n in P.srcs)), f"m{P.nmods}", P.knob_kind, f"kz{int(kz)}",
-                    f"dx{dx:g}", f"rel{int(rel)}", seedmode, tags["from"], tags["to"], f"st{int(stale)}"])
+                    f"dx{dx:g}", f"rel{int(rel)}", seedmode, tags["from"], tags["to"], f"st{int(stale)}", f"nest{int(P.nested)}"])
     return {"key": key, "nontrivial": len(reports) > 0,
             "obs": {"reports": len(reports), "canonical_order": stats["canonical"], "fd_err_over_allowance": margin_fd,
                     "fd_err_over_rounding_allowance": margin_rnd, "an_err_over_tol": margin_an,
